@@ -364,6 +364,9 @@ static void sweep_xor_c05() {
                     if (th) { dests.clear(); for (int d = 0; d < n; d++) dests.push_back(d); }
                     else { int d = counter % n; if (std::find(E.begin(), E.end(), d) == E.end()) dests.push_back(d); }
                     c.setv("dests", dests);
+                    // every other case also with all inputs (fragments and pointer list) on read-only pages: the decoder
+                    // may not use a surviving fragment as scratch space, not even if it puts the bytes back
+                    c.set("guard", (counter % 2) ? 1 + (counter & 0xfff) : 0);
                     sweep_case(c, run_c05);
                 }
             });
@@ -640,10 +643,10 @@ static Case gen_c20() {
 struct C05Mt { Config g; int desc; const Stripe *s; std::atomic<int> *stop; std::string err; int rounds; uint64_t seed; };
 static void *c05_decoder(void *p) {
     C05Mt &a = *(C05Mt *)p;
-    int n = a.g.n(), t = a.g.hd - 1;
+    int n = a.g.n(), t = ref::tolerance(a.g);
     uint64_t sd = a.seed;
     for (int r = 0; r < a.rounds && a.err.empty(); r++) {
-        int e = 2 + (int)(splitmix64(sd) % (t - 1));
+        int e = t >= 2 ? 2 + (int)(splitmix64(sd) % (t - 1)) : 1;
         std::vector<bool> gone(n, false); std::vector<int> E;
         while ((int)E.size() < e) { int x = (int)(splitmix64(sd) % (E.empty() ? a.g.k : n)); if (!gone[x]) { gone[x] = true; E.push_back(x); } }
         std::vector<const std::vector<uint8_t> *> frs;
@@ -693,6 +696,25 @@ static void sweep_c05_mt() {
         Case c; Config g; g.backend = ref::B_XOR; g.k = sh.k; g.m = sh.m; g.hd = sh.hd; g.ct = CT_NONE; cfg_to(c, g);
         c.set("data_cls", BUF_RANDOM); c.set("data_seed", 4000 + si); c.set("data_len", (int64_t)sh.k * 20);
         c.set("decoders", 2); c.set("creators", 2); c.set("rounds", th ? 3000 : 400); c.set("seed", opts().seed * 131 + si);
+        sweep_case(c, run_c05_mt);
+    }
+}
+
+// C01 with other threads creating and destroying instances of the same shape meanwhile (round trip on an existing
+// instance is a statement about that instance, whatever the rest of the process does with the registry)
+static void sweep_c01_mt() {
+    int shard = (int)opts().shard, ns = (int)opts().nshards, counter = 0;
+    bool th = opts().tier == "thorough";
+    std::vector<Config> cfgs;
+    auto add = [&](int be, int k, int m, int hd) { Config g; g.backend = be; g.k = k; g.m = m; g.hd = hd; g.ct = (k & 1) ? CT_CRC32 : CT_NONE; cfgs.push_back(g); };
+    add(ref::B_RS, 4, 2, 2); add(ref::B_RS, 10, 4, 4); add(ref::B_RS, 3, 5, 5); add(ref::B_RS, 2, 2, 2);
+    add(ref::B_XOR, 10, 5, 3); add(ref::B_XOR, 12, 6, 4); add(ref::B_XOR, 6, 6, 4); add(ref::B_XOR, 5, 5, 3);
+    if (isa_available()) { add(ref::B_ISA_C, 5, 3, 3); add(ref::B_ISA_C, 2, 4, 4); }
+    for (auto &g : cfgs) {
+        if ((counter++ % ns) != shard) continue;
+        Case c; cfg_to(c, g);
+        c.set("data_cls", BUF_RANDOM); c.set("data_seed", 4100 + counter); c.set("data_len", (int64_t)g.k * 20 + (counter % 3));
+        c.set("decoders", 2); c.set("creators", 2); c.set("rounds", th ? 3000 : 400); c.set("seed", opts().seed * 137 + counter);
         sweep_case(c, run_c05_mt);
     }
 }
@@ -883,6 +905,7 @@ int main(int argc, char **argv) {
     h.mode("c05_decode_sweep", sweep_xor_c05, run_c05);
     h.mode("c05_large", [] { sweep_large(run_c05, true); }, run_c05);
     h.mode("c05_mt", sweep_c05_mt, run_c05_mt);
+    h.mode("c01_mt", sweep_c01_mt, run_c05_mt);
     h.mode("c19", [] { rc_property("C19 ISA-L adapters", gen_c19, run_c19); }, run_c19);
     h.mode("c19_sweep", sweep_c19, run_c19);
     h.mode("c19_singular", sweep_c19_singular, run_c19);
